@@ -1425,6 +1425,9 @@ fn c17(sim: &mut Sim, d: &Delivery) -> u64 {
                 };
                 for (k, s) in sets.iter().enumerate() {
                     let MSetKind::Data { recs, .. } = &s.kind else { continue };
+                    if s.tainted {
+                        continue;
+                    }
                     let has_unknown = recs.iter().any(|r| r.fields.iter().any(|f| f.val == Err(Why::UnknownFieldOff)));
                     if !has_unknown {
                         continue;
